@@ -67,6 +67,7 @@ type Cluster struct {
 	servers   map[string]*Server // fed addr -> live server
 	AddrNode  map[string]string  // fed addr / gossip addr -> node name
 	blocked   map[[2]string]bool // directed reachability (by node name)
+	holdBack  map[[2]string]bool // (client node, server node): what the server sends back on their streams is held up
 	rpcs      []*RPC
 	Log       []*Frame
 	Members   []MemberEvent // every membership event delivered
@@ -110,6 +111,9 @@ func Install(c *Cluster) {
 		}
 		if c.blocked == nil {
 			c.blocked = map[[2]string]bool{}
+		}
+		if c.holdBack == nil {
+			c.holdBack = map[[2]string]bool{}
 		}
 		if c.Faults == nil {
 			c.Faults = map[string]int{}
@@ -423,6 +427,31 @@ func (c *Cluster) Block(a, b string, on bool) {
 	}
 }
 
+// HoldBack makes everything server b sends back to client a on their RPCs hang in the network (it is lost if
+// the transport is cut meanwhile, delivered when the hold is lifted): acknowledgements that do not arrive.
+func (c *Cluster) HoldBack(a, b string, on bool) {
+	c.mu.Lock()
+	c.holdBack[[2]string{a, b}] = on
+	var release []*RPC
+	if !on {
+		for _, r := range c.rpcs {
+			if r.From == a && r.To == b && !r.dead && len(r.cli.flight) > 0 {
+				release = append(release, r)
+			}
+		}
+	}
+	c.mu.Unlock()
+	for _, r := range release {
+		r := r
+		c.mu.Lock()
+		n := len(r.cli.flight)
+		c.mu.Unlock()
+		for i := 0; i < n; i++ {
+			c.After(c.dur(c.LatMin, c.LatMax), fmt.Sprintf("rpc%d deliver (released)", r.ID), func() { r.deliverOne(&r.cli) })
+		}
+	}
+}
+
 // KillNode models the death of a node's process: its agent stops, its gRPC server disappears, every
 // transport from or to it is cut and nothing it still sends leaves the machine.
 //
@@ -646,6 +675,12 @@ func (r *RPC) Cut(reason string) {
 	r.reason = reason
 	c.Faults["fed.cut:"+reason]++
 	c.LastFault = c.now()
+	for _, sd := range []*side{&r.cli, &r.srv} {
+		for _, f := range sd.flight {
+			f.Lost = true
+		}
+		sd.flight = nil
+	}
 	d1, d2 := c.dur(c.NoticeMin, c.NoticeMax), c.dur(c.NoticeMin, c.NoticeMax)
 	c.mu.Unlock()
 	c.After(d1, fmt.Sprintf("rpc%d client learns of cut", r.ID), func() {
@@ -711,30 +746,47 @@ func (r *RPC) send(toServer bool, f *Frame) error {
 	peer.lastDue = at
 	f.cutAfter = cutNow
 	peer.flight = append(peer.flight, f)
-	c.mu.Unlock()
 	// one event per frame; whichever event fires first delivers the oldest frame in flight (FIFO)
-	c.After(time.Until(at), fmt.Sprintf("rpc%d deliver", r.ID), func() {
+	held := !toServer && c.holdBack[[2]string{r.From, r.To}]
+	c.mu.Unlock()
+	if held {
 		c.mu.Lock()
-		if len(peer.flight) == 0 {
-			c.mu.Unlock()
-			return
-		}
-		g := peer.flight[0]
-		peer.flight = peer.flight[1:]
-		if r.dead {
-			g.Lost = true
-			c.mu.Unlock()
-			return
-		}
-		g.DelivStep = c.S.StepCnt
-		peer.inbox = append(peer.inbox, g)
+		c.Faults["fed.reply_held_back"]++
 		c.mu.Unlock()
-		c.wake(peer)
-		if g.cutAfter {
-			r.Cut("random, after message")
-		}
-	})
+		return nil // stays in flight until HoldBack(..., false) or a cut
+	}
+	c.After(time.Until(at), fmt.Sprintf("rpc%d deliver", r.ID), func() { r.deliverOne(peer) })
 	return nil
+}
+
+// deliverOne hands the oldest frame in flight towards peer to its inbox.
+//
+//go:norace
+func (r *RPC) deliverOne(peer *side) {
+	c := r.cl
+	c.mu.Lock()
+	if len(peer.flight) == 0 {
+		c.mu.Unlock()
+		return
+	}
+	if peer == &r.cli && c.holdBack[[2]string{r.From, r.To}] {
+		c.mu.Unlock()
+		return
+	}
+	g := peer.flight[0]
+	peer.flight = peer.flight[1:]
+	if r.dead {
+		g.Lost = true
+		c.mu.Unlock()
+		return
+	}
+	g.DelivStep = c.S.StepCnt
+	peer.inbox = append(peer.inbox, g)
+	c.mu.Unlock()
+	c.wake(peer)
+	if g.cutAfter {
+		r.Cut("random, after message")
+	}
 }
 
 // recv waits for the next frame for one side.
